@@ -36,6 +36,14 @@ func T3(n int) dbgen.Table {
 		}
 		t.Rows = append(t.Rows, dbgen.Row{Rowid: int64(i*7 + 1), Vals: []interface{}{k, mixVal(i + 2), fmt.Sprintf("w%d", i/2)}})
 	}
+	// a PRIMARY KEY that is not the rowid may hold NULLs, and NULLs never conflict in a UNIQUE index:
+	// a full-length key containing NULL can match several rows
+	for i := 0; i < 3 && n > 4; i++ {
+		t.Rows = append(t.Rows, dbgen.Row{Rowid: int64(5000 + i), Vals: []interface{}{nil, fmt.Sprintf("nullpk%d", i), nil}})
+	}
+	if n > 4 {
+		t.Rows = append(t.Rows, dbgen.Row{Rowid: 6000, Vals: []interface{}{"haswnull", nil, nil}}, dbgen.Row{Rowid: 6001, Vals: []interface{}{"haswnull2", nil, nil}})
+	}
 	t.Indexes = []dbgen.Index{
 		{Name: "sqlite_autoindex_t3_1", Cols: []dbgen.IdxCol{{Col: 0}}},
 		{Name: "sqlite_autoindex_t3_2", Cols: []dbgen.IdxCol{{Col: 2, Coll: "rtrim"}, {Col: 1}}},
